@@ -392,7 +392,7 @@ static mtbl_res u_next(void *v, const uint8_t **k, size_t *kn, const uint8_t **v
 	struct uent *e = &it->u->e[it->pos];
 	switch (it->kind) {
 	case 1: if (bcmp2(e->k.p, e->k.n, it->k0.p, it->k0.n) != 0) { it->pos = it->u->n; return mtbl_res_failure; } break;
-	case 2: if (!(e->k.n >= it->k0.n && memcmp(e->k.p, it->k0.p, it->k0.n) == 0)) { it->pos = it->u->n; return mtbl_res_failure; } break;
+	case 2: if (!(e->k.n >= it->k0.n && (it->k0.n == 0 || memcmp(e->k.p, it->k0.p, it->k0.n) == 0))) { it->pos = it->u->n; return mtbl_res_failure; } break;
 	case 3: if (bcmp2(e->k.p, e->k.n, it->k1.p, it->k1.n) > 0) { it->pos = it->u->n; return mtbl_res_failure; } break;
 	}
 	it->pos++;
@@ -410,7 +410,7 @@ static void u_free(void *v) {
 }
 static struct bytes bdup(const uint8_t *p, size_t n) {
 	struct bytes b = { malloc(n + 1), n };
-	memcpy(b.p, p, n);
+	if (n) memcpy(b.p, p, n);
 	return b;
 }
 static struct mtbl_iter *u_mk(struct usrc *u, int kind, const uint8_t *k0, size_t n0, const uint8_t *k1, size_t n1) {
@@ -708,11 +708,12 @@ static void run_line(char *line) {
 		/* m_init M mergemode failtok dupsort */
 		int m = IARG(1);
 		struct mtbl_merger_options *o = mtbl_merger_options_init();
-		if (IARG(2)) mtbl_merger_options_set_merge_func(o, merge_bag, new_mclos((int)IARG(2), (int)IARG(3)));
+		int mcid = -1;
+		if (IARG(2)) { mcid = n_mclos; mtbl_merger_options_set_merge_func(o, merge_bag, new_mclos((int)IARG(2), (int)IARG(3))); }
 		if (IARG(4)) mtbl_merger_options_set_dupsort_func(o, dupsort_bytes, NULL);
 		mergers[m] = mtbl_merger_init(o);
 		mtbl_merger_options_destroy(&o);
-		sb_printf(&s, "{\"e\":\"MInit\",\"m\":%d,\"merge\":%ld,\"failtok\":%ld,\"dupsort\":%ld}", m, IARG(2), IARG(3), IARG(4));
+		sb_printf(&s, "{\"e\":\"MInit\",\"m\":%d,\"merge\":%ld,\"failtok\":%ld,\"dupsort\":%ld,\"mc\":%d}", m, IARG(2), IARG(3), IARG(4), mcid);
 	} else if (!strcmp(op, "m_add")) {
 		int m = IARG(1);
 		mtbl_merger_add_source(mergers[m], get_source(ARG(2)));
